@@ -121,7 +121,44 @@ theorem C09_switch_invocation_arguments (P : Program) (val : Node → Option Val
 /-- **a returned value is the dataflow value of the output node** -/
 theorem C09_switch_returned_value (P : Program) (val : Node → Option Val) (hsw : SwP P) (hsol : SolutionSw P val)
     (s : St) (h : Reach P s) (v : Val) (ho : s.outcome = some (.value v)) : val P.g.output = some v :=
-  (safe_reach hsw hsol h).data.out v ho
+  (safe_reach hsw hsol h).data.out (.value v) ho
+
+/-- **everything the collaborators observe is justified** (the observation log is what the lock-step tie compares with
+the real engine): a body is invoked with the declared arguments, in its only invocation, within its attempt budget and
+only after every earlier attempt was a retryable failure; a default is computed only when the policy ends in the
+default; what is saved is the node's final value; success is reported only for a node that has a value; a reported
+node error is an exception the body raised (or a collaborator's); the reported and returned outcome is the output's
+value or an error with a cause -/
+theorem C09_switch_observations (P : Program) (val : Node → Option Val) (hsw : SwP P) (hsol : SolutionSw P val)
+    (s : St) (log : List Obs) (h : Exec P s log) : ∀ o ∈ log, ObsOK P val o :=
+  (safe_exec hsw hsol h).2
+
+/-- **an error outcome has a cause**: the final failure of a node on its dataflow arguments, a failing collaborator, a
+switch whose decision names no declared case, or a setup error (unreachable case, pools not registered) -/
+theorem C09_switch_error_has_cause (P : Program) (val : Node → Option Val) (hsw : SwP P) (hsol : SolutionSw P val)
+    (s : St) (h : Reach P s) (e : Exc) (ho : s.outcome = some (.error e) ∨ s.outcome = some (.raised e)) :
+    ErrCause P val e := by
+  rcases ho with ho | ho
+  · exact (safe_reach hsw hsol h).data.out _ ho
+  · exact (safe_reach hsw hsol h).data.out _ ho
+
+/-- a failed switch pipeline whose collaborators do not fail and whose setup is sound failed because a node did, or
+because a decision named no case -/
+theorem C09_switch_error_is_a_node_failure (P : Program) (val : Node → Option Val) (hsw : SwP P)
+    (hsol : SolutionSw P val) (s : St) (h : Reach P s) (e : Exc)
+    (ho : s.outcome = some (.error e) ∨ s.outcome = some (.raised e))
+    (hcb : ∀ cb n, P.cbRaise cb n = none) (hpools : P.poolsOk = true) (hlk : e.cls ≠ "Other:NodeNotFound") :
+    (∃ n, P.g.isSwitch n = false ∧ NodeFails P val n e ∧ val n = none) ∨
+    (∃ S, P.g.isSwitch S = true ∧ e = ⟨"SwitchNoCase", S, 0, 0⟩ ∧ swSel P val S = none ∧ val S = none) := by
+  rcases C09_switch_error_has_cause P val hsw hsol s h e ho with ⟨n, h1, h2⟩ | ⟨cb, m, hc⟩ | ⟨S, h1, h2, _, h4⟩ | h5 | ⟨h6, _⟩
+  · refine Or.inl ⟨n, h1, h2, ?_⟩
+    rw [hsol.plain n h1, h2.1]
+    simp only [if_true, valueOf, h2.2]
+  · rw [hcb] at hc; cases hc
+  · refine Or.inr ⟨S, h1, h2, h4, ?_⟩
+    rw [hsol.sw S h1, h4]; rfl
+  · exact absurd (by rw [h5]) hlk
+  · rw [hpools] at h6; cases h6
 
 /-- two executions of a switch pipeline — whatever their schedules — never return different values -/
 theorem C09_switch_values_agree (P : Program) (val : Node → Option Val) (hsw : SwP P) (hsol : SolutionSw P val)
@@ -176,5 +213,49 @@ example : ∃ s, runChoicesR demoSwitch init demoSwitchRun = some s ∧ Reach de
     (by decide)
   exact ⟨s, hs, hr, hsw4, hdec.2.2, v, hv,
     C09_switch_returned_value demoSwitch demoSwVal demoSwitch_swP demoSwVal_solution s hr v hv⟩
+
+/-- run a list of choices, collecting the observation log -/
+def runLog (P : Program) : St → List Obs → List Choice → Option (St × List Obs)
+  | s, log, [] => some (s, log)
+  | s, log, c :: cs => match step P s c with
+    | some (s', obs) => runLog P s' (log ++ obs) cs
+    | none => none
+
+theorem exec_of_runLog {P : Program} : ∀ (cs : List Choice) (s : St) (log : List Obs) (r : St × List Obs),
+    Exec P s log → runLog P s log cs = some r → Exec P r.1 r.2
+  | [], s, log, r, h, hr => by simp [runLog] at hr; subst hr; exact h
+  | c :: cs, s, log, r, h, hr => by
+    simp only [runLog] at hr
+    split at hr
+    · next s1 obs hs => exact exec_of_runLog cs s1 _ r (.step h hs) hr
+    · cases hr
+
+/-- in the complete run above, the consumer's body (node 5) is observed being invoked, the selected case's value is
+observed being saved, and a value is observed being returned: by `C09_switch_observations` the consumer got the declared
+arguments — the selected case's value for its switch parameter — and what was saved and returned is the solution's -/
+example : ∃ s log, Exec demoSwitch s log ∧
+    (∃ kw, Obs.body 5 0 1 kw ∈ log ∧ kw = kwFrom demoSwitch demoSwVal 5) ∧
+    (∃ v, Obs.save 2 v ∈ log ∧ demoSwVal 2 = some v) ∧
+    (∃ v, Obs.returned (.value v) ∈ log ∧ demoSwVal demoSwitch.g.output = some v) := by
+  have h : (runLog demoSwitch init [] demoSwitchRun).isSome = true := by decide +kernel
+  obtain ⟨r, hr⟩ := Option.isSome_iff_exists.mp h
+  have hex := exec_of_runLog demoSwitchRun init [] r .init hr
+  have hall := C09_switch_observations demoSwitch demoSwVal demoSwitch_swP demoSwVal_solution r.1 r.2 hex
+  have fact : ∀ (p : Obs → Bool), ((runLog demoSwitch init [] demoSwitchRun).map (fun r => r.2.any p)) = some true →
+      ∃ o ∈ r.2, p o = true := by
+    intro p hp; rw [hr] at hp; simpa using hp
+  obtain ⟨o1, hm1, hp1⟩ := fact (fun o => match o with | .body 5 0 1 _ => true | _ => false) (by decide +kernel)
+  obtain ⟨o2, hm2, hp2⟩ := fact (fun o => match o with | .save 2 _ => true | _ => false) (by decide +kernel)
+  obtain ⟨o3, hm3, hp3⟩ := fact (fun o => match o with | .returned (.value _) => true | _ => false) (by decide +kernel)
+  refine ⟨r.1, r.2, hex, ?_, ?_, ?_⟩
+  · split at hp1
+    · next kw => exact ⟨kw, hm1, (hall _ hm1).kw_eq⟩
+    · cases hp1
+  · split at hp2
+    · next v => exact ⟨v, hm2, (hall _ hm2).1⟩
+    · cases hp2
+  · split at hp3
+    · next v => exact ⟨v, hm3, hall _ hm3⟩
+    · cases hp3
 
 end MLPE.Eng
